@@ -2,6 +2,7 @@ package props
 
 import (
 	"fmt"
+	"os"
 	"time"
 
 	"github.com/containernetworking/cni/pkg/skel"
@@ -34,17 +35,31 @@ func c19DaemonJobs(tier string) []Job {
 		name    string
 		setup   []cniReq
 		threads []cniReq
+		policy  bool // a policy manager is attached and a policy event runs as a further thread
 	}
 	scens := []scen{
-		{"daemon/ADD(c1)||ADD(c2)", nil, []cniReq{{"ADD", "c1", "p-ab"}, {"ADD", "c2", "p-bc-if"}}},
-		{"daemon/ADD(c1)||DEL(c2)", []cniReq{{"ADD", "c2", "p-ab"}}, []cniReq{{"ADD", "c1", "p-ab"}, {"DEL", "c2", "p-ab"}}},
-		{"daemon/DEL(c1)||DEL(c2)", []cniReq{{"ADD", "c1", "p-ab"}, {"ADD", "c2", "p-json"}}, []cniReq{{"DEL", "c1", "p-ab"}, {"DEL", "c2", "p-json"}}},
-		{"daemon/ADD(c1)||ADD(c2)||DEL(c3)", []cniReq{{"ADD", "c3", "p-ab"}}, []cniReq{{"ADD", "c1", "p-ab"}, {"ADD", "c2", "p-ab"}, {"DEL", "c3", "p-ab"}}},
+		{"daemon/ADD(c1)||ADD(c2)", nil, []cniReq{{"ADD", "c1", "p-ab"}, {"ADD", "c2", "p-bc-if"}}, false},
+		{"daemon/ADD(c1)||DEL(c2)", []cniReq{{"ADD", "c2", "p-ab"}}, []cniReq{{"ADD", "c1", "p-ab"}, {"DEL", "c2", "p-ab"}}, false},
+		{"daemon/DEL(c1)||DEL(c2)", []cniReq{{"ADD", "c1", "p-ab"}, {"ADD", "c2", "p-json"}}, []cniReq{{"DEL", "c1", "p-ab"}, {"DEL", "c2", "p-json"}}, false},
+		{"daemon/ADD(c1)||ADD(c2)||DEL(c3)", []cniReq{{"ADD", "c3", "p-ab"}}, []cniReq{{"ADD", "c1", "p-ab"}, {"ADD", "c2", "p-ab"}, {"DEL", "c3", "p-ab"}}, false},
+		// pods with host ports: the port table of the port mapping handler, port files, NAT rules
+		{"daemon/hostports ADD(c1)||ADD(c2)||DEL(c3)", []cniReq{{"ADD", "c3", "hp-3"}}, []cniReq{{"ADD", "c1", "hp-1"}, {"ADD", "c2", "hp-2"}, {"DEL", "c3", "hp-3"}}, false},
+		// network policy enabled: CNI requests sync pod chains and ipsets while a policy event recompiles the policies
+		{"daemon/policy-event||ADD(c1)", []cniReq{{"ADD", "c2", "hp-2"}}, []cniReq{{"ADD", "c1", "hp-1"}}, true},
+		{"daemon/policy-event||DEL(c2)", []cniReq{{"ADD", "c2", "hp-2"}}, []cniReq{{"DEL", "c2", "hp-2"}}, true},
 	}
+	if tier == "thorough" {
+		scens = append(scens, scen{"daemon/policy-event||ADD(c1)||DEL(c2)", []cniReq{{"ADD", "c2", "hp-2"}}, []cniReq{{"ADD", "c1", "hp-1"}, {"DEL", "c2", "hp-2"}}, true})
+	}
+
 	var jobs []Job
 	for _, sc := range scens {
 		sc := sc
-		jobs = append(jobs, Job{Name: sc.name, Weight: 4, Run: func(deadline time.Time) *ScenResult {
+		weight := 4
+		if sc.policy {
+			weight = 8
+		}
+		jobs = append(jobs, Job{Name: sc.name, Weight: weight, Run: func(deadline time.Time) *ScenResult {
 			t0 := time.Now()
 			h, err := newCNIHarness(daemonConf{Defaults: []string{"a"}})
 			if err != nil {
@@ -53,6 +68,17 @@ func c19DaemonJobs(tier string) []Job {
 			defer h.close()
 			for _, p := range c12Pods {
 				h.putPod(p)
+			}
+			base := int32(43000 + (os.Getpid()%200)*20)
+			for i := int32(1); i <= 3; i++ {
+				h.putPod(cniPod{Name: fmt.Sprintf("hp-%d", i), Networks: "a", HostPort: base + i, Labels: map[string]string{"app": "web"}})
+			}
+			var pw *policyWorld
+			if sc.policy {
+				pw = newPolicyWorld(h.kern)
+				pw.setCluster(mkCluster([]string{"web", "db"}, []string{"in-podsel"}))
+				pw.pm.Run()
+				h.g.VerifSetPolicyManager(pw.pm)
 			}
 			bounds := map[string]int{"preempt": 1}
 			if tier == "thorough" {
@@ -70,6 +96,15 @@ func c19DaemonJobs(tier string) []Job {
 				for i, r := range sc.threads {
 					r := r
 					s.Go(fmt.Sprintf("%s-%s#%d", r.Cmd, r.CID, i), func() { _, _ = h.g.VerifRequest(h.podRequest(r.Cmd, r.CID, r.Pod)) })
+				}
+				if sc.policy {
+					s.Go("policy-event", func() {
+						cl := mkCluster([]string{"web", "db"}, []string{"in-podsel", "in-denyall"})
+						pw.setCluster(cl)
+						_ = pw.pm.AddPolicy(cl.Policies[1])
+						pw.setCluster(mkCluster([]string{"web", "db"}, []string{"in-podsel"}))
+						_ = pw.pm.DeletePolicy(cl.Policies[1])
+					})
 				}
 				s.Run()
 				out := coop.Outcome{Trace: s.TraceStrings(), Nontrivial: true}
